@@ -30,12 +30,14 @@ OPTIONS = {
     "min": (lambda: strv("underdetermined_opt", "min"), "Minimize", ("sum",), False),
     "max": (lambda: strv("underdetermined_opt", "max"), "Maximize", ("sum",), False),
     "var": (lambda: strv("underdetermined_opt", "var"), "Minimize", ("sum_squares",), False),
-    "number": (lambda: num("underdetermined_opt", U_INT), "Minimize", ("sum_squares", "square", "abs"), True),
+    "number": (lambda: num("underdetermined_opt", U_INT, np_scalar=False), "Minimize", ("sum_squares", "square", "abs"), True),
+    # a NumPy scalar (np.float64 from X.sum(), np.mean, …) is a Number AND an np.generic
+    "number (numpy scalar)": (lambda: num("underdetermined_opt", U_INT, np_scalar=True), "Minimize", ("sum_squares", "square", "abs"), True),
     "vector": (lambda: arr("underdetermined_opt", S("SRC"), U_INT), "Minimize", ("sum_squares", "norm2"), True),
 }
 
 AXES = {
-    "K": (["vec", "mat", None], ["vec", "mat", None]),
+    "K": (["vec", "mat", None, "scalar"], ["vec", "mat", None, "scalar"]),
     "baseline": (["vec", None], ["vec", None, "scalar"]),
     "W": (["mat", "vec"], ["mat", "vec", None]),
     "lb": (["nonneg", "any"], ["nonneg", "any"]),
@@ -86,7 +88,7 @@ def check(rep, an, tier):
                           msg="the requested value/vector never reaches the objective")
             if label == "var":
                 var_structure(rep, res, expr, where, text, entry)
-            if label in ("min", "max", "number"):
+            if label in ("min", "max", "number", "number (numpy scalar)"):
                 # Σx over ALL sources: the summed operand must be the bare variable
                 sums = [(v, ops) for at, v, ops in R.walk_atoms(expr) if at == "sum"]
                 ok = bool(sums) and all(ops[0].tag("cvx") in ("leaf", "expr") and R.leaf_kinds(res, ops[0])[1] for v, ops in sums)
